@@ -162,6 +162,11 @@ def check_channel(case):
         f = _direction(tag, snd, rcv, order, data)
         if f is not None:
             return f
+    # plaintexts made of the channel's own values (done here: the third-party block below rebinds `chb` to B's channel towards C)
+    if not case.get('large'):
+        f = _self_referential(cha, chb, ord_a, ord_b, p, q, a_ids=_safe_ids(case), pick=case.get('sr'))
+        if f is not None:
+            return f
     # a THIRD party C opens a channel to B through the very Server object A used (objects describing a peer are re-used across
     # channels): C -> B works like A -> B did
     if ids['mode'] == 'chan':
@@ -187,6 +192,67 @@ def check_channel(case):
                 f = _direction(tag, snd, rcv, order, data)
                 if f is not None:
                     return Fail(f.signature + '/server-object-shared-by-two-clients', f.detail)
+    return None
+
+
+def _safe_ids(case):
+    try:
+        return _case_ids(case)
+    except Exception:
+        return ()
+
+
+def _self_referential(cha, chb, ord_a, ord_b, p, q, a_ids=(), pick=None):
+    """"all plaintexts" includes plaintexts that are made of the channel's OWN values: a packet this channel (or the peer's) emitted
+    a moment ago sent on as the payload of the next packet (tunnelling / forwarding / a resend queue), two levels of that, a payload
+    that begins with (or is) a key identifier, the checksum field or the ciphertext of an earlier packet, or one of the two ids.
+    Such a payload is a plaintext like any other: packet layout, checksum and the peer's decryption are checked exactly as before.
+    `pick` (case field 'sr'): None = every kind (grid cases, replays); a list of integers = those kinds only (random cases draw three)."""
+    for tag, snd, rcv, order, base, other in (('A->B', cha, chb, ord_a, p, q), ('B->A', chb, cha, ord_b, q, p)):
+        ok, own = call(snd.encrypt, base)
+        ok2, theirs = call(rcv.encrypt, other)
+        if not ok or not ok2 or not isinstance(own, (bytes, bytearray)) or not isinstance(theirs, (bytes, bytearray)):
+            continue                                  # already reported by the plain directions
+        own, theirs = bytes(own), bytes(theirs)
+        text = base[:40] or b'quoted'
+        derived = [('own-packet', own), ('peer-packet', theirs),
+                   ('own-packet-first-32', own[:32]), ('own-packet-first-32+text', own[:32] + text), ('own-packet-first-31', own[:31]),
+                   ('own-packet-first-33', own[:33]), ('own-packet-first-64', own[:64]), ('own-packet-first-64+text', own[:64] + text),
+                   ('peer-packet-first-32', theirs[:32]), ('peer-packet-first-32+text', theirs[:32] + text),
+                   ('peer-packet-first-64', theirs[:64]),
+                   ('own-checksum-field', own[32:64]), ('own-checksum-field+text', own[32:64] + text),
+                   ('own-ciphertext', own[64:]), ('peer-ciphertext', theirs[64:]),
+                   ('text+own-packet', text + own), ('own-packet-twice', own + own)]
+        for nm in ('client_aes_key_id', 'server_aes_key_id'):
+            for side, ch in (('own', snd), ('peer', rcv)):
+                v = getattr(ch, nm, None)
+                if isinstance(v, (bytes, bytearray)):
+                    derived += [(f'{side}.{nm}', bytes(v)), (f'{side}.{nm}+text', bytes(v) + text)]
+        for i, v in enumerate(a_ids):
+            derived += [(f'peer-id-{i}', v), (f'peer-id-{i}+text', v + text)]
+        if pick is not None:
+            derived = [derived[i % len(derived)] for i in pick]
+        for kind, data in derived:
+            f = _direction(f'{tag}, plaintext = {kind}', snd, rcv, order, data)
+            if f is not None:
+                return Fail(f.signature + '/plaintext-made-of-channel-values', f.detail)
+        # two and three levels of nesting, peeled again by the peer one level at a time
+        cur, layers = base, []
+        for depth in range(3):
+            ok, pkt = call(snd.encrypt, cur)
+            if not ok or not isinstance(pkt, (bytes, bytearray)) or len(pkt) < 64:
+                return Fail('channel/nested-packet/encrypt-fails/plaintext-made-of-channel-values', f'{tag} depth {depth}: {pkt!r}'[:300])
+            layers.append(cur)
+            cur = bytes(pkt)
+        for depth in range(2, -1, -1):
+            if cur[32:64] != hashlib.sha256(layers[depth]).digest():
+                return Fail('channel/checksum-field-not-sha256-of-plaintext/plaintext-made-of-channel-values',
+                            f'{tag}: packet nested {depth + 1} deep, checksum field is not the SHA-256 of its payload')
+            ok, out = call(rcv.decrypt, cur[64:], cur[32:64])
+            if not ok or bytes(out) != layers[depth]:
+                return Fail(f'channel/peer-decrypt-differs/{order}/plaintext-made-of-channel-values',
+                            f'{tag}: packet nested {depth + 1} deep did not peel back to its payload: {out!r}'[:300])
+            cur = bytes(out)
     return None
 
 
@@ -225,8 +291,8 @@ _plain = st.one_of(st.binary(min_size=1, max_size=48), st.binary(min_size=0, max
 
 
 def strat_channel(tier):
-    return st.builds(lambda sp, ids, p, q: {'a': sp[0].hex(), 'b': sp[1].hex(), 'ids': ids, 'p': p.hex(), 'q': q.hex()},
-                     _seed_pair, _ids, _plain, _plain)
+    return st.builds(lambda sp, ids, p, q, sr: {'a': sp[0].hex(), 'b': sp[1].hex(), 'ids': ids, 'p': p.hex(), 'q': q.hex(), 'sr': sr},
+                     _seed_pair, _ids, _plain, _plain, st.lists(st.integers(0, 28), min_size=3, max_size=3))
 
 
 def enum_channel(tier):
@@ -284,6 +350,29 @@ def _accepts(verify_sign, pk, m, sig):
     """True iff verify_sign returns a truthy value (exceptions count as 'does not verify')"""
     ok, r = call(verify_sign, pk, m, sig)
     return ok and bool(r)
+
+
+_RELATIVES = [
+    ('sha256', lambda m: hashlib.sha256(m).digest()),
+    ('sha256-of-sha256', lambda m: hashlib.sha256(hashlib.sha256(m).digest()).digest()),
+    ('sha512', lambda m: hashlib.sha512(m).digest()),
+    ('sha512-first-32', lambda m: hashlib.sha512(m).digest()[:32]),
+    ('sha3_256', lambda m: hashlib.sha3_256(m).digest()),
+    ('blake2b-32', lambda m: hashlib.blake2b(m, digest_size=32).digest()),
+    ('sha1', lambda m: hashlib.sha1(m).digest()),
+    ('hex-text', lambda m: m.hex().encode()),
+    ('upper-hex-text', lambda m: m.hex().upper().encode()),
+    ('base64-text', lambda m: __import__('base64').b64encode(m)),
+    ('sha256-hex-text', lambda m: hashlib.sha256(m).hexdigest().encode()),
+    ('zero-padded-to-32', lambda m: m.ljust(32, b'\x00') if len(m) < 32 else m + b'\x00' * (-len(m) % 32 or 32)),
+    ('zero-stripped', lambda m: m.strip(b'\x00')),
+    ('length-prefixed', lambda m: len(m).to_bytes(4, 'little') + m),
+    ('byte-reversed', lambda m: m[::-1]),
+    ('ton-safe-sign-prefix', lambda m: b'\xff\xff' + b'ton-safe-sign-magic' + m),
+]
+
+
+_N_DIGEST_RELATIVES = 4          # sha256, sha256-of-sha256, sha512, sha512-first-32: tried in every signature case
 
 
 def check_sign(case):
@@ -350,6 +439,31 @@ def check_sign(case):
         for k in (1, 32, 63):
             if _accepts(verify_sign, pk, sig[64 - k:] + m, sig[:64 - k]):
                 return Fail('verify_sign/accepts/signature-tail-moved-into-message', f'k={k} pk={pk.hex()} msg={m.hex()[:120]}')
+    # "any other message" includes messages RELATED to the signed one by a transformation callers and protocols commonly apply
+    # (a digest, a double digest, a text encoding, a length/zero framing): the signature of m is not one of t(m), and - the other
+    # way round, which is the usual mix-up "the digest was signed, the payload is presented" - the signature of t(m) is not one of m
+    rel = case.get('rel', 1)
+    first_sig, first_name = next(iter(sigs.items()))
+    signers = (('sign_message', lambda x: sign_message(x, sk)), ('get_signature', lambda x: get_signature(SigningKey(seed), x)),
+               ('Client.sign', lambda x: Client(seed).sign(x)))
+    for ti, (tname, t) in enumerate(_RELATIVES if rel else ()):
+        # the digest relatives in every case, three of the others per case (rotating with the case's bit positions)
+        if ti >= _N_DIGEST_RELATIVES and (ti + case['msgbit'] + case['msgbit'] // 16) % 4 != 0:
+            continue
+        tm = t(m)
+        if tm == m:
+            continue
+        if _accepts(verify_sign, pk, tm, first_sig):
+            return Fail(f'verify_sign/accepts/related-message/{tname}-of-the-signed-message',
+                        f'signature by {first_name} of {m.hex()[:120]} accepted for its {tname} {tm.hex()[:120]}')
+        use = signers if tname == 'sha256' else (signers[(ti + case['keybit']) % 3],)
+        for name, f in use:
+            ok, sig_t = call(f, tm)
+            if not ok or not isinstance(sig_t, (bytes, bytearray)):
+                continue
+            if _accepts(verify_sign, pk, m, bytes(sig_t)):
+                return Fail(f'verify_sign/accepts/related-message/signed-message-is-the-{tname}-of-the-presented-one',
+                            f'{name} signed {tname}(M) = {tm.hex()[:120]}; verify_sign accepted that signature for M = {m.hex()[:120]} (pk {pk.hex()})')
     # an EMPTY signature with a message that is itself (signature || m) - nothing was signed under that name
     for sig, name in list(sigs.items())[:1]:
         for empty in (b'', bytearray()):
@@ -382,7 +496,7 @@ def enum_sign_bits(tier):
         m = (hashlib.sha256(b'c20/msg/%d' % k).digest() * 5)[:(0, 1, 32, 64, 65, 100, 131, 160)[k]]
         for bit in range(512):
             yield {'seed': seed.hex(), 'msg': m.hex(), 'other_seed': hashlib.sha256(seed).hexdigest(), 'other_msg': m[::-1].hex(),
-                   'sigbit': bit, 'msgbit': bit, 'keybit': bit % 256}
+                   'sigbit': bit, 'msgbit': bit, 'keybit': bit % 256, 'rel': int(bit % 16 == 0)}
 
 
 def classify_sign(case):
@@ -398,6 +512,38 @@ def classify_sign(case):
 # --------------------------------------------------------------------------------------------------
 # mnemonics
 
+def _by_len(wordlist):
+    d = {}
+    for i, w in enumerate(wordlist):
+        d.setdefault(len(w), []).append(i)
+    return d
+
+
+def _pick(by_len, n, seed, k):
+    """index of a word of n letters (nearest available length if the list has none), chosen by a SHA-256 counter stream"""
+    if n not in by_len:
+        n = min(by_len, key=lambda x: (abs(x - n), x))
+    c = by_len[n]
+    return c[int.from_bytes(hashlib.sha256(seed + k.to_bytes(8, 'big')).digest()[:4], 'big') % len(c)]
+
+
+def _lens_for(total, variant, count=24, lo=3, hi=8):
+    """`count` word lengths in lo..hi whose joined phrase (one space between words) is `total` bytes; `variant` rotates the layout"""
+    letters = total - (count - 1)
+    letters = max(count * lo, min(count * hi, letters))
+    base, extra = divmod(letters - count * lo, count)
+    lens = [lo + base + (1 if j < extra else 0) for j in range(count)]
+    if variant % 3 == 1:                      # spread: move letters from some words to others, sum unchanged
+        for j in range(0, count - 1, 2):
+            d = min(lens[j] - lo, hi - lens[j + 1], 1 + variant % 2)
+            lens[j] -= d
+            lens[j + 1] += d
+    elif variant % 3 == 2:
+        lens.reverse()
+    r = variant % count
+    return lens[r:] + lens[:r]
+
+
 def _words_of(case, keys):
     """-> (words, Fail|None). 'i' cases draw a fresh mnemonic (library RNG = os.urandom); 'words'/'idx' cases are fixed"""
     if 'words' in case:
@@ -405,7 +551,36 @@ def _words_of(case, keys):
     if 'idx' in case:
         wl = keys.words
         return [wl[i % len(wl)] for i in case['idx']], None
-    if 'stream' in case:
+    if 'lens' in case and 'stream' not in case:
+        # fixed words of the given lengths (no generator involved)
+        by_len = _by_len(keys.words)
+        seed = bytes.fromhex(case['pick'])
+        return [keys.words[_pick(by_len, case['lens'][j], seed, j)] for j in range(len(case['lens']))], None
+    if 'lens' in case:
+        # the generator's randomness is supplied by the case AND steered: the k-th request of every 24 is answered with the index
+        # (big-endian in the leading bytes, the way get_secure_random_number reads it; repeated to fill the request) of a
+        # pseudo-randomly picked word of length lens[k], so that EVERY candidate phrase the generator tries has the same designed
+        # byte length when joined with spaces (e.g. exactly the hash's block size, one less, one more) - lengths that a real
+        # entropy source produces once in tens of thousands of candidates. If the library reads its randomness differently the
+        # steering is lost but the case is still a sound "generated mnemonic must be valid" case.
+        import os as _os
+        state = {'n': 0}
+        seed = bytes.fromhex(case['stream'])
+        by_len = _by_len(keys.words)
+        lens = case['lens']
+
+        def fake(n):
+            k = state['n']
+            state['n'] += 1
+            idx = _pick(by_len, lens[k % len(lens)], seed, k)
+            return (idx.to_bytes(2, 'big') * (n // 2 + 1))[:n]
+        real = _os.urandom
+        _os.urandom = fake
+        try:
+            ok, w = call(keys.mnemonic_new)
+        finally:
+            _os.urandom = real
+    elif 'stream' in case:
         # the generator's randomness is supplied by the case: os.urandom is replaced, for the duration of the call, by a
         # SHA-256 counter stream in which every `edge`-th request returns all-zero / all-one bytes, so that the first and the
         # last word of the list (index 0 and 2047) are certain to be drawn - reproducible from the case alone
@@ -521,6 +696,19 @@ def enum_mnemonic_valid(tier):
     # a source that is stuck at zero for thousands of candidates and then recovers (24 requests per candidate)
     for i, cand in enumerate((1000, 4200, 9000) if tier == 'quick' else (1000, 4100, 4200, 9000, 20000, 70000)):
         yield {'stream': hashlib.sha256(b'c20/stuck/%d' % i).hexdigest()[:16], 'edge': 5, 'stuck': 24 * cand + i}
+    # every candidate phrase of the designed byte length L, for every length 24 list words can have (95..215; the quick tier takes
+    # every 6th length plus the boundaries 95, 96, 111..113, 119..121, 127..129, 143..145, 159..161, 191..193, 214, 215): among them the
+    # block sizes and padding boundaries of the hashes involved (64, 111/112, 119/120, 127/128/129, 192 ...) - whichever
+    # length is special to an implementation of the validity test, the generator must not hand out an invalid mnemonic
+    edges = {95, 96, 214, 215} | {b + d for b in (112, 120, 128, 144, 160, 192) for d in (-1, 0, 1)}
+    for L in range(95, 216):
+        if tier == 'quick' and L not in edges and L % 6:
+            continue
+        for v in range(1 if tier == 'quick' else 4):
+            yield {'stream': hashlib.sha256(b'c20/steer/%d/%d' % (L, v)).hexdigest()[:16], 'lens': _lens_for(L, v + L), 'L': L}
+    for L in (127, 128, 129):                                  # the SHA-512 block size: three more layouts each in the quick tier
+        for v in range(1, 4):
+            yield {'stream': hashlib.sha256(b'c20/steer-b/%d/%d' % (L, v)).hexdigest()[:16], 'lens': _lens_for(L, v), 'L': L}
 
 
 def enum_derive(tier):
@@ -532,10 +720,18 @@ def enum_derive(tier):
         else:
             h = hashlib.sha512(b'c20/derive/%d' % i).digest()
             yield {'idx': [int.from_bytes(h[2 * j:2 * j + 2], 'big') % 2048 for j in range(24)], 'form': form}
+    # fixed words whose joined phrase has a designed byte length (the HMAC key of the derivation is the phrase: block size and around)
+    for i, L in enumerate((127, 128, 129) if tier == 'quick' else (95, 111, 112, 119, 120, 127, 128, 129, 130, 143, 144, 191, 192, 215)):
+        yield {'lens': _lens_for(L, i), 'pick': hashlib.sha256(b'c20/derive-len/%d' % L).hexdigest()[:16], 'L': L, 'form': 'list'}
 
 
 def classify_mnemonic(case):
-    yield 'source=' + ('mnemonic_new()' if 'i' in case else 'mnemonic_new()-with-supplied-random-stream' if 'stream' in case else 'fixed-word-indices' if 'idx' in case else 'given-words')
+    yield 'source=' + ('mnemonic_new()' if 'i' in case else 'mnemonic_new()-with-steered-word-lengths' if 'stream' in case and 'lens' in case else
+                       'mnemonic_new()-with-supplied-random-stream' if 'stream' in case else 'fixed-words-of-designed-lengths' if 'lens' in case else
+                       'fixed-word-indices' if 'idx' in case else 'given-words')
+    if 'lens' in case:
+        L = sum(case['lens']) + len(case['lens']) - 1
+        yield 'phrase-bytes=' + ('<111' if L < 111 else '111..126' if L < 127 else str(L) if L <= 129 else '130..191' if L < 192 else '>=192')
 
 
 SUBCHECKS = [
